@@ -156,6 +156,8 @@ func checkC15(r *core.Run) {
 
 	checkRandomSPProvenance(r)
 	checkIgnoreLists(r)
+	r.Rule("T-filter-use: in RandomSP the list of eligible nodes as read from the store is used only by the ignore filter (everything chosen comes from the filtered list)")
+	ruleFilterUse(r, "T-filter-use", "node/keeper.Keeper.RandomSP", "node/keeper.Keeper.GetAllNodesByStatusAndReputationAndRole")
 }
 
 // checkRandomSPProvenance: every node placed into RandomSP's result comes from the two eligibility-checked producers.
@@ -185,7 +187,7 @@ func checkRandomSPProvenance(r *core.Run) {
 					allowed = true
 				}
 			}
-			if strings.HasPrefix(call, "builtin.append(") || strings.HasPrefix(call, "node/keeper.Keeper.RandomIndex(") || strings.HasPrefix(call, "math/big.") || strings.HasPrefix(call, "builtin.len(") || strings.HasPrefix(call, "sdk.Context.") {
+			if strings.HasPrefix(call, "builtin.append(") || strings.HasPrefix(call, "node/keeper.Keeper.RandomIndex(") || strings.HasPrefix(call, "math/big.") || strings.HasPrefix(call, "builtin.len(") || strings.HasPrefix(call, "sdk.Context.") || strings.HasPrefix(call, "make(") || strings.HasPrefix(call, "builtin.cap(") {
 				allowed = true
 			}
 			if !allowed {
@@ -336,6 +338,12 @@ func checkIgnoreLists(r *core.Run) {
 // accumulatesAll: v is a slice built by appending, in a range loop over X, on every iteration except those
 // that skip because a record was not found (or that leave the enclosing iteration altogether).
 func accumulatesAll(r *core.Run, fn *ssa.Function, v ssa.Value) (bool, string) {
+	ok, why, _, _ := accumulatesAllL(r, fn, v)
+	return ok, why
+}
+
+// accumulatesAllL: as accumulatesAll; also returns the function and loop in which the list is accumulated.
+func accumulatesAllL(r *core.Run, fn *ssa.Function, v ssa.Value) (bool, string, *ssa.Function, *cfgx.Loop) {
 	// the appends may lie in a helper that collects the list (alone or as a field of a local result struct)
 	org := listOriginOf(r, fn, v)
 	var appends []*ssa.Call
@@ -343,10 +351,10 @@ func accumulatesAll(r *core.Run, fn *ssa.Function, v ssa.Value) (bool, string) {
 		appends = append(appends, s.App)
 	}
 	if len(appends) == 0 {
-		return false, "no append feeds the list"
+		return false, "no append feeds the list", nil, nil
 	}
 	if fn = org.Fn(); fn == nil {
-		return false, "the appends feeding the list are spread over several functions"
+		return false, "the appends feeding the list are spread over several functions", nil, nil
 	}
 	res := r.Resolver(fn)
 	for _, l := range cfgx.Loops(fn) {
@@ -423,11 +431,11 @@ func accumulatesAll(r *core.Run, fn *ssa.Function, v ssa.Value) (bool, string) {
 			}
 		}
 		if cyc {
-			return false, "some iteration of the loop (" + shorten(over) + ") reaches the next element without appending (other than by a not-found skip)"
+			return false, "some iteration of the loop (" + shorten(over) + ") reaches the next element without appending (other than by a not-found skip)", fn, l
 		}
-		return true, "the list is appended to on every iteration of the range loop (" + shorten(over) + "); only a not-found record skips"
+		return true, "the list is appended to on every iteration of the range loop (" + shorten(over) + "); only a not-found record skips", fn, l
 	}
-	return false, "the appends feeding the list are not inside a loop"
+	return false, "the appends feeding the list are not inside a loop", fn, nil
 }
 
 var _ = term.AllFields
